@@ -143,16 +143,14 @@ class PhaseScreen(object):
         Calculates the "A" matrix, that uses the existing data to find a new 
         component of the new phase vector.
         """
-        # Cholsky solve can fail - if so do brute force inversion
+        # Cholsky solve can fail
         try:
             cf = linalg.cho_factor(self.cov_mat_zz)
-            inv_cov_zz = linalg.cho_solve(cf, numpy.identity(self.cov_mat_zz.shape[0]))
+            # A = cov_xz . cov_zz^-1, by solving cov_zz . A^T = cov_zx (cov_zz is symmetric): forming the explicit inverse
+            # first loses cond(cov_zz) * eps, which for a large L0 / pixel_scale is of the order of the phase itself
+            self.A_mat = linalg.cho_solve(cf, self.cov_mat_zx).T
         except linalg.LinAlgError:
-            # print("Cholesky solve failed. Performing SVD inversion...")
-            # inv_cov_zz = numpy.linalg.pinv(self.cov_mat_zz)
             raise linalg.LinAlgError("Could not invert Covariance Matrix to for A and B Matrices. Try with a larger pixel scale or smaller L0")
-
-        self.A_mat = self.cov_mat_xz.dot(inv_cov_zz)
 
     def makeBMatrix(self):
         """
